@@ -72,8 +72,10 @@ def build_config(spec: dict[str, Any]) -> dict[str, Any]:
         cfg["realization_filters"] = [spec["filter"]]
         cfg["objectives"]["realization_filters"] = [0] * spec["K"]
     if spec["method"] == "de":
+        # (SciPy also accepts a Generator as seed: an object that a run must not consume on behalf of the next run)
+        de_seed = np.random.default_rng(spec["de_seed"]) if spec.get("de_seed_generator") else spec["de_seed"]
         cfg["optimizer"] = {"method": "differential_evolution", "max_functions": spec["budget"] * 3,
-                            "options": {"seed": spec["de_seed"], "popsize": 2, "maxiter": 2, "tol": 0.0}}
+                            "options": {"seed": de_seed, "popsize": 2, "maxiter": 2, "tol": 0.0}}
     else:
         cfg["optimizer"] = {"method": "slsqp", "max_functions": spec["budget"], "speculative": spec["speculative"]}
     return cfg
@@ -262,6 +264,7 @@ def hypothesis_shard(item: dict[str, Any]) -> Collector:
                 "samplers": [draw(sampler()) for _ in range(s_n)],
                 "assign": [draw(st.integers(0, s_n - 1)) for _ in range(n)] if s_n > 1 else None, "mask": mask, "filter": flt,
                 "estimator": estimator, "method": draw(st.sampled_from(["slsqp", "slsqp", "de"])), "de_seed": draw(st.integers(0, 20)),
+                "de_seed_generator": draw(st.integers(0, 2)) == 0,
                 "budget": draw(st.integers(2, 4)), "speculative": draw(st.booleans()),
                 "slopes": [draw(st.sampled_from([-1.0, -0.3, 0.4, 1.0])) for _ in range(r_n * n)]}
 
@@ -311,10 +314,29 @@ def hypothesis_shard(item: dict[str, Any]) -> Collector:
 def shards(tier: str, seed: int) -> list[dict[str, Any]]:
     nshard = 8 if tier == "quick" else 16
     examples = 50 if tier == "quick" else 1500
-    return [{"seed": seed * 1000 + i, "examples": examples, "fresh_every": 12 if tier == "quick" else 25} for i in range(nshard)]
+    items: list[dict[str, Any]] = [{"seed": seed * 1000 + i, "examples": examples, "fresh_every": 12 if tier == "quick" else 25} for i in range(nshard)]
+    items.append({"kind": "large", "seed": seed})
+    return items
+
+
+def large_case(seed: int) -> dict[str, Any]:
+    """More free variables and perturbations than any size threshold inside the gradient code is likely to be (40 x 40)."""
+    n = 40
+    spec = {"n": n, "K": 1, "P": n, "weights": [1.0], "x0": [0.1 * ((3 * i) % 7 - 3) for i in range(n)], "seed": 5 + seed,
+            "samplers": [["norm", False, None]], "assign": None, "mask": None, "filter": None, "estimator": "mean", "method": "slsqp",
+            "de_seed": 1, "budget": 3, "speculative": False, "slopes": [0.3 * ((5 * i) % 11 - 5) for i in range(n)]}
+    return {"A": spec, "actions": [{"kind": "reseed", "value": 12345 + seed}], "final_reuse": "fresh", "fresh_process": False, "inside": None}
 
 
 def run_shard(item: dict[str, Any]) -> Collector:
+    if item.get("kind") == "large":
+        col = Collector(ID)
+        case = large_case(item["seed"])
+        from harness.core import guard_call
+
+        guard_call(col, case, lambda: run_case(case))
+        col.case(("large", item["seed"]), nontrivial=True, classes=("large-40x40", "optimizer=slsqp"), sample=case)
+        return col
     return hypothesis_shard(item)
 
 
